@@ -141,7 +141,7 @@ class UnitCtx:
         r2 = sess.prove(name + "#outside-known", goal, z3.And(core.zbool(guard), z3.Not(w)))
         self._rec(r2)
         if r2.status == "unsat":
-          self.known_hits.append(f"KNOWN-FINDING: property={self.pid} {key} when [{kf['when']}] :: {kf['desc']}")
+          self.known_hits.append(f"KNOWN-FINDING: property={self.pid} {kf['key']} when [{kf['when']}] :: {kf['desc']}")
           q["known"] = True
           return res
         if r2.status == "sat":
@@ -153,7 +153,7 @@ class UnitCtx:
         self.errors.append(f"query {key} outside known finding inconclusive: {r2.status}")
         return res
       else:
-        self.known_hits.append(f"KNOWN-FINDING: property={self.pid} {key} :: {kf['desc']}")
+        self.known_hits.append(f"KNOWN-FINDING: property={self.pid} {kf['key']} :: {kf['desc']}")
         q["known"] = True
         return res
     # genuine candidate: replay
@@ -181,7 +181,7 @@ class UnitCtx:
     full = f"{self.unit}:{key}"
     for kf in self.known:
       if _key_match(kf["key"], full) and not kf["when"]:
-        self.known_hits.append(f"KNOWN-FINDING: property={self.pid} {full} :: {kf['desc']}")
+        self.known_hits.append(f"KNOWN-FINDING: property={self.pid} {kf['key']} :: {kf['desc']}")
         return
     self.violations.append({"key": full, "desc": desc, "replay": replay})
 
@@ -222,6 +222,8 @@ def _run_unit(args):
   try:
     fn(ctx)
   except core.Unsupported as ex:
+    if os.environ.get("WSYM_DEBUG"):
+      traceback.print_exc()
     ctx.errors.append(f"unit {name}: unsupported construct: {ex}")
   except Exception as ex:
     ctx.errors.append(f"unit {name}: crashed: {type(ex).__name__}: {ex}\n{traceback.format_exc()}")
